@@ -117,9 +117,9 @@ def run(ck):
     ck.extra["group_operations_checked_in_coq"] = nops
     ck.extra["traces_validated_against_impl"] = len(bad) + len(codes)
     # ---------------- vacancy-mediated tensors -----------------------------------------------------------
-    names = ["square", "honeycomb", "sq2w", "tria", "rect", "sc", "b2"] + ([] if ck.quick else ["fcc", "bcc", "hcp", "re3", "tet"])
+    names = ["rect", "square", "honeycomb", "ortho", "sq2w", "tria", "sc", "b2"] + ([] if ck.quick else ["hcp", "fcc", "bcc", "re3", "tet", "hcp-nonideal"])
     nvm = 0
-    for rep in range(ck.n(4, 14)):
+    for rep in range(ck.n(5, 16)):
         nm = names[rep % len(names)] if rep < len(names) else rng.choice(names)
         crys, chem = gen.named(nm)
         net = gen.percolating_network(crys, chem, rng, maxshell=1, maxjumps=30)
@@ -130,6 +130,10 @@ def run(ck):
             th = vm.random_thermo(d, rng, interact=True, site_energies=True)
             if r2 == 1:  # strong / weak exchange
                 th["eneT2"] = th["eneT2"] + rng.choice([-6.0, 6.0])
+            if r2 == 0 and len(sl) == 1 and len(d.OSindices) == 0:
+                # exchange fast enough for the large-omega2 algorithm, inequivalent exchange classes spread over decades
+                # (crystals outside the known large-omega2 failure regimes of C08 only)
+                th["preT2"] = th["preT2"] * 10.0 ** rng.uniform(9, 11) * np.array([10.0 ** rng.uniform(0, 3) for _ in th["preT2"]])
             args = d.preene2betafree(1.0, **th)
             doc = {"crystal": nm, "cutoff": cut, "thermo": {k: np.asarray(v).tolist() for k, v in th.items()}}
             try:
@@ -141,7 +145,7 @@ def run(ck):
                     sample={"crystal": nm, "Lss": Lss.tolist()} if nvm <= 2 else None)
             doc.update(L0vv=L0vv.tolist(), Lss=Lss.tolist(), Lsv=Lsv.tolist(), L1vv=L1vv.tolist())
             check_tensor(ck, "L0vv", L0vv, crys, True, 1e-9, doc, "c03-L0vv")
-            check_tensor(ck, "Lss", Lss, crys, True, 1e-7, doc, "c03-Lss")
+            check_tensor(ck, "Lss", Lss, crys, True, 1e-6, doc, "c03-Lss")
             check_tensor(ck, "Lsv", Lsv, crys, False, 1e-7, doc, "c03-Lsv")
             check_tensor(ck, "L1vv", L1vv, crys, False, 1e-7, doc, "c03-L1vv")
     ck.extra["float_interstitial_cases"] = nfl
